@@ -1084,9 +1084,10 @@ def tablePQ : List Monitor.Method := (Monitor.ofTriples lockTablePQ).getD []
 def tablePool : List Monitor.Method := (Monitor.ofTriples lockTablePool).getD []
 def tableTS : List Monitor.Method := (Monitor.ofTriples lockTableTS).getD []
 
-/-- **C34_race_free.**  Over the lock tables of PriorityQueue, Pool and TransactionState (the
-    harness re-extracts them from the three source files on every run and compares them with
-    the tables below): every method that writes guarded fields holds the exclusive lock and
+/-- **C34_race_free.**  Over the lock tables of PriorityQueue, Pool and TransactionState as
+    transcribed when this file was written (informational: the check does NOT compare against
+    them, it decides the tables it extracts from the three source files at run time with the
+    same `Monitor.raceFree`): every method that writes guarded fields holds the exclusive lock and
     every method that reads them holds a lock, in one critical section; hence no two
     conflicting methods can be inside their critical sections together. -/
 theorem C34_race_free :
@@ -1108,46 +1109,98 @@ def Op.method : Op → String
   | .push _ _ => "Push" | .pop => "Pop" | .peek => "Peek" | .remove _ => "RemoveExtrinsic"
   | .exist _ => "Exists" | .pending => "Pending" | .len => "Len"
 
-def modeOf (name : String) : Monitor.Mode :=
-  match tablePQ.find? (·.name == name) with
-  | some m => m.mode
-  | none => .none
+/-- the methods that modify the queue -/
+def Op.writes : Op → Bool
+  | .push _ _ => true | .pop => true | .remove _ => true
+  | .peek => false | .exist _ => false | .pending => false | .len => false
 
-/-- an invocation of a queue method: it takes the lock the table says and runs its body -/
-def invOf (op : Op) : Monitor.Inv State Out :=
-  { mode := modeOf op.method, body := [fun s _ => ((step s op).2, (step s op).1)], init := .ok }
+theorem step_pure (s : State) (op : Op) (h : op.writes = false) : (step s op).2 = s := by
+  cases op <;> first | rfl | cases h
 
-theorem invOf_mode (op : Op) : (invOf op).mode = .lock := by
+/-- an invocation of a queue method under lock table `t` (any table the harness may extract):
+    it takes the lock the table assigns to its method and runs its body -/
+def invOf (t : List Monitor.Method) (op : Op) : Monitor.Inv State Out :=
+  { mode := Monitor.modeIn t op.method, body := [fun s _ => ((step s op).2, (step s op).1)], init := .ok }
+
+/-- what the lock-table check establishes for a PriorityQueue table: it is race free, and the
+    extractor classifies the modifying methods as writers of the guarded fields -/
+structure GoodTable (t : List Monitor.Method) : Prop where
+  raceFree : Monitor.raceFree t = true
+  writers : ∀ op : Op, op.writes = true → Monitor.accessIn t op.method = .writes
+
+/-- today's table is one such table; so is the same table with the pure readers under RLock
+    (sync.RWMutex): the check decides the table extracted at run time, whichever it is -/
+theorem goodTable_today : GoodTable tablePQ := by
+  refine ⟨by decide, ?_⟩
+  intro op h
   cases op with
-  | push h p => show modeOf "Push" = .lock; decide
-  | pop => show modeOf "Pop" = .lock; decide
-  | peek => show modeOf "Peek" = .lock; decide
-  | remove h => show modeOf "RemoveExtrinsic" = .lock; decide
-  | exist h => show modeOf "Exists" = .lock; decide
-  | pending => show modeOf "Pending" = .lock; decide
-  | len => show modeOf "Len" = .lock; decide
+  | push a b => show Monitor.accessIn _ "Push" = .writes; decide
+  | pop => show Monitor.accessIn _ "Pop" = .writes; decide
+  | remove a => show Monitor.accessIn _ "RemoveExtrinsic" = .writes; decide
+  | peek => cases h
+  | exist a => cases h
+  | pending => cases h
+  | len => cases h
 
-theorem seqRun_invOf (calls : Nat → Op) (order : List Nat) : ∀ s : State,
-    Monitor.seqRun (fun i => invOf (calls i)) s order =
+theorem goodTable_rwmutex : GoodTable
+    [⟨"Exists", .rlock, .reads⟩, ⟨"Len", .rlock, .reads⟩, ⟨"Peek", .rlock, .reads⟩,
+     ⟨"Pending", .rlock, .reads⟩, ⟨"Pop", .lock, .writes⟩, ⟨"PopWithTimer", .none, .pure⟩,
+     ⟨"Push", .lock, .writes⟩, ⟨"RemoveExtrinsic", .lock, .writes⟩] := by
+  refine ⟨by decide, ?_⟩
+  intro op h
+  cases op with
+  | push a b => show Monitor.accessIn _ "Push" = .writes; decide
+  | pop => show Monitor.accessIn _ "Pop" = .writes; decide
+  | remove a => show Monitor.accessIn _ "RemoveExtrinsic" = .writes; decide
+  | peek => cases h
+  | exist a => cases h
+  | pending => cases h
+  | len => cases h
+
+/-- check-then-act Push (duplicate check under RLock, insertion under Lock: two critical
+    sections) is parsed as an unlocked writer and rejected -/
+theorem C34_check_then_act_rejected :
+    Monitor.Method.parse? "Push" ["split", "RLock", "reads", "Lock", "writes"] = some ⟨"Push", .none, .writes⟩ ∧
+    Monitor.raceFree [⟨"Exists", .rlock, .reads⟩, ⟨"Pop", .lock, .writes⟩, ⟨"Push", .none, .writes⟩] = false := by
+  decide
+
+theorem readersPure {t : List Monitor.Method} (ht : GoodTable t) (calls : Nat → Op) :
+    Monitor.ReadersPure (fun i => invOf t (calls i)) := by
+  intro i hr f hf s l
+  cases hw : (calls i).writes with
+  | true =>
+    have : (invOf t (calls i)).mode = .lock := Monitor.modeIn_lock ht.raceFree (ht.writers _ hw)
+    rw [this] at hr; cases hr
+  | false =>
+    have hf' : f = fun s _ => ((step s (calls i)).2, (step s (calls i)).1) := by
+      simpa [invOf] using hf
+    subst hf'
+    exact step_pure s (calls i) hw
+
+theorem seqRun_invOf (t : List Monitor.Method) (calls : Nat → Op) (order : List Nat) : ∀ s : State,
+    Monitor.seqRun (fun i => invOf t (calls i)) s order =
       ((run s (order.map calls)).2, order.zip (run s (order.map calls)).1) := by
   induction order with
   | nil => intro s; rfl
   | cons i is ih =>
     intro s
     simp only [Monitor.seqRun, List.map_cons, run, List.zip_cons_cons]
-    have hb : Monitor.runBody (invOf (calls i)).body s (invOf (calls i)).init =
+    have hb : Monitor.runBody (invOf t (calls i)).body s (invOf t (calls i)).init =
         ((step s (calls i)).2, (step s (calls i)).1) := rfl
     rw [hb, ih]
 
-/-- **C34_linearizable.**  Any number of goroutines invoke Push / Pop / Peek / RemoveExtrinsic /
+/-- **C34_linearizable.**  For ANY lock table `t` that the check accepts (race free, modifying
+    methods classified as writers — e.g. today's sync.Mutex table, or pure readers under RLock of
+    a sync.RWMutex): any number of goroutines invoke Push / Pop / Peek / RemoveExtrinsic /
     Exists / Pending / Len (`calls i` is the i-th invocation) on a fresh queue; each invocation
-    acquires the lock its method takes according to the lock table, runs, releases; acquisitions
-    obey the mutex rules; the interleaving is otherwise arbitrary.  Whenever no invocation is in
-    progress, the queue state and the result of every invocation are those of the sequential
-    model run in release order, hence (C34_refines) those of the sorted-list specification.
-    Release order extends real-time order. -/
-theorem C34_linearizable (calls : Nat → Op) (es : List Monitor.Ev) (c : Monitor.Cfg State Out)
-    (hs : Monitor.Steps (fun i => invOf (calls i)) (Monitor.Cfg.init State.init) es c)
+    acquires the lock the table assigns to its method, runs, releases; acquisitions obey the
+    reader/writer lock rules (readers may overlap); the interleaving is otherwise arbitrary.
+    Whenever no invocation is in progress, the queue state and the result of every invocation
+    are those of the sequential model run in release order, hence (C34_refines) those of the
+    sorted-list specification.  Release order extends real-time order. -/
+theorem C34_linearizable (t : List Monitor.Method) (ht : GoodTable t)
+    (calls : Nat → Op) (es : List Monitor.Ev) (c : Monitor.Cfg State Out)
+    (hs : Monitor.Steps (fun i => invOf t (calls i)) (Monitor.Cfg.init State.init) es c)
     (hq : ∀ j, c.fl j = none) :
     let order := c.log.reverse.map (·.1)
     c.shared = reach (order.map calls) ∧
@@ -1155,36 +1208,41 @@ theorem C34_linearizable (calls : Nat → Op) (es : List Monitor.Ev) (c : Monito
     OutsRel (run State.init (order.map calls)).1 (srun Spec.init (order.map calls)).1 ∧
     Rel c.shared (srun Spec.init (order.map calls)).2 := by
   intro order
-  have hp : Monitor.ReadersPure (fun i => invOf (calls i)) := by
-    intro i hr
-    rw [invOf_mode] at hr
-    cases hr
-  have h := Monitor.linearizable _ hp State.init es c hs hq
+  have h := Monitor.linearizable _ (readersPure ht calls) State.init es c hs hq
   rw [seqRun_invOf] at h
   have h1 : (run State.init (order.map calls)).2 = c.shared := congrArg Prod.fst h
   have h2 : order.zip (run State.init (order.map calls)).1 = c.log.reverse := congrArg Prod.snd h
   have hr := C34_refines (order.map calls)
   exact ⟨h1.symm, h2.symm, hr.1, by rw [← h1]; exact hr.2⟩
 
-/-- two invocations are never inside the queue at the same time -/
-theorem C34_mutual_exclusion (calls : Nat → Op) (es : List Monitor.Ev) (c : Monitor.Cfg State Out)
-    (hs : Monitor.Steps (fun i => invOf (calls i)) (Monitor.Cfg.init State.init) es c)
-    (i j : Nat) (hi : c.fl i ≠ none) (hj : c.fl j ≠ none) : i = j := by
-  apply Classical.byContradiction
-  intro hij
-  have hp : Monitor.ReadersPure (fun i => invOf (calls i)) := by
-    intro i hr
-    rw [invOf_mode] at hr
-    cases hr
-  have := (Monitor.no_conflict _ hp State.init es c hs i j hi hj hij).1
-  rw [invOf_mode] at this
-  cases this
+/-- under any accepted table, two invocations inside the queue at the same time are both
+    non-modifying (a modifying method is always alone inside) -/
+theorem C34_mutual_exclusion (t : List Monitor.Method) (ht : GoodTable t)
+    (calls : Nat → Op) (es : List Monitor.Ev) (c : Monitor.Cfg State Out)
+    (hs : Monitor.Steps (fun i => invOf t (calls i)) (Monitor.Cfg.init State.init) es c)
+    (i j : Nat) (hi : c.fl i ≠ none) (hj : c.fl j ≠ none) (hij : i ≠ j) :
+    (calls i).writes = false ∧ (calls j).writes = false := by
+  have h := Monitor.no_conflict _ (readersPure ht calls) State.init es c hs i j hi hj hij
+  constructor
+  · cases hw : (calls i).writes with
+    | false => rfl
+    | true =>
+      have : (invOf t (calls i)).mode = .lock := Monitor.modeIn_lock ht.raceFree (ht.writers _ hw)
+      rw [this] at h; cases h.1
+  · cases hw : (calls j).writes with
+    | false => rfl
+    | true =>
+      have : (invOf t (calls j)).mode = .lock := Monitor.modeIn_lock ht.raceFree (ht.writers _ hw)
+      rw [this] at h; cases h.2
 
 /-- non-vacuity of the hypotheses of C34_linearizable: a Push can run alone to completion -/
-example : ∃ c, Monitor.Steps (fun i => invOf ((fun _ => Op.push 1 5) i)) (Monitor.Cfg.init State.init)
+example : ∃ c, Monitor.Steps (fun i => invOf tablePQ ((fun _ => Op.push 1 5) i)) (Monitor.Cfg.init State.init)
     [.acq 0, .step 0, .rel 0] c ∧ (∀ j, c.fl j = none) := by
-  obtain ⟨c, h1, h2, _⟩ := Monitor.solo_one (fun i => invOf ((fun _ => Op.push 1 5) i)) 0 _ rfl
-    (by rw [invOf_mode]; simp) State.init
+  obtain ⟨c, h1, h2, _⟩ := Monitor.solo_one (fun i => invOf tablePQ ((fun _ => Op.push 1 5) i)) 0 _ rfl
+    (by
+      have : (invOf tablePQ (Op.push 1 5)).mode = .lock :=
+        Monitor.modeIn_lock goodTable_today.raceFree (goodTable_today.writers (Op.push 1 5) rfl)
+      rw [this]; simp) State.init
   exact ⟨c, h1, h2⟩
 
 end Gossamer.C34
